@@ -5,14 +5,15 @@ from ..fam import history
 
 
 def cases(tier):
-    return history.map_cases(tier, 3) + listtbl.cases(tier, 'func')
+    from ..fam import strf
+    return history.map_cases(tier, 3) + listtbl.cases(tier, 'func') + strf.cases(tier, 'C08')
 
 
 def meta(tier):
     i = listtbl.info(tier)
     return {'level': 'model_checking', 'bounds': i['bounds'],
             'outside': ['tables with more entries than the bound; names longer than 2 characters or outside {a,A,b}; values longer than 2 bytes (3 for strings)',
-                        'putstrf() and debug() (printf-style formatting / FILE output)',
+                        'putstrf(): only the buffer management around vsnprintf with the format "%s" (strf queries); formatting itself and debug() (FILE output) are outside',
                         'save/load: names containing the separator, blanks or "#" (the save format does not encode names), encode=false, separators other than "="',
                         'three-call histories through the public API (every triple of put/get/remove/size/clear, symbolic keys out of four and values) complement the one-step queries', 'histories are covered through the inductive argument only: base (constructor) + one step from every valid state within the bound, for each of the 16 option combinations'],
             'stubs': i['stubs'],
